@@ -271,7 +271,13 @@ class Lib:
         from walkcheck import make_new_exec
         s.ck = CK(job['hdr']); s.new_exec = make_new_exec(job['paths'], s.ck); s.cfg = cfg; s.d = d; s.backend = backend; s.extra = extra; s.x = None; s.universe = attr_universe(s.ck)
     def start(s):
-        s.x = s.new_exec(s.cfg, s.d, s.backend, s.extra, reuse_dir=True); s.x.timeout = 300
+        for attempt in range(40):
+            # another check may be re-linking the shared executor at this very moment (build.py): a short retry, not a verdict
+            try: s.x = s.new_exec(s.cfg, s.d, s.backend, s.extra, reuse_dir=True); break
+            except (PermissionError, FileNotFoundError, OSError):
+                if attempt == 39: raise
+                import time; time.sleep(0.5)
+        s.x.timeout = 300
         r = s.x.call('C_Initialize', locking='os'); assert r['rv'] == 0, r
     def stop(s):
         if s.x is not None:
